@@ -780,4 +780,437 @@ theorem newBook_nodup (os : List Order) (hos : os.Nodup) :
     exact List.Nodup.sublist (List.sublist_flatten_of_mem (List.mem_map.mpr ⟨t, ht, rfl⟩)) h.2.1
 
 
+
+/-! ## the two-sided loop of `Match` -/
+
+/-! ### telescoping -/
+
+theorem filledOf_trans {R S : Order → Order → Prop} {a b c : List Order} (h1 : All2 R a b) (h2 : All2 S b c) :
+    filledOf a c = filledOf a b + filledOf b c := by
+  induction a generalizing b c with
+  | nil =>
+    cases b with
+    | nil => cases c with
+      | nil => rfl
+      | cons _ _ => exact h2.elim
+    | cons _ _ => exact h1.elim
+  | cons x xs ih =>
+    cases b with
+    | nil => exact h1.elim
+    | cons y ys =>
+      cases c with
+      | nil => exact h2.elim
+      | cons z zs =>
+        have := ih h1.2 h2.2
+        simp only [filledOf, List.zipWith_cons_cons, sumInt] at *
+        omega
+
+theorem quoteOf_trans {S : Order → Order → Prop} {a b c : List Order}
+    (h1 : All2 (fun o o' => o'.dir = o.dir) a b) (h2 : All2 S b c) :
+    quoteOf a c = quoteOf a b + quoteOf b c := by
+  induction a generalizing b c with
+  | nil =>
+    cases b with
+    | nil => cases c with
+      | nil => rfl
+      | cons _ _ => exact h2.elim
+    | cons _ _ => exact h1.elim
+  | cons x xs ih =>
+    cases b with
+    | nil => exact h1.elim
+    | cons y ys =>
+      cases c with
+      | nil => exact h2.elim
+      | cons z zs =>
+        have := ih h1.2 h2.2
+        have hd := h1.1
+        simp only [quoteOf, List.zipWith_cons_cons, sumInt] at *
+        rw [hd]
+        split <;> omega
+
+theorem all2_imp {α β : Type} {R S : α → β → Prop} (hrs : ∀ a b, R a b → S a b) {l₁ : List α} {l₂ : List β}
+    (h : All2 R l₁ l₂) : All2 S l₁ l₂ := by
+  induction l₁ generalizing l₂ with
+  | nil => cases l₂ with
+    | nil => trivial
+    | cons _ _ => exact h.elim
+  | cons a as ih => cases l₂ with
+    | nil => exact h.elim
+    | cons b bs => exact ⟨hrs _ _ h.1, ih h.2⟩
+
+/-- fills keep directions and ids -/
+theorem reach_static {os os' : List Order} (hw : ∀ o ∈ os, Wf o) (h : All2 Reach os os') :
+    All2 (fun o o' => o'.dir = o.dir) os os' ∧ os'.map (·.id) = os.map (·.id) := by
+  induction os generalizing os' with
+  | nil => cases os' with
+    | nil => exact ⟨trivial, rfl⟩
+    | cons _ _ => exact h.elim
+  | cons o os ih =>
+    cases os' with
+    | nil => exact h.elim
+    | cons o' os' =>
+      have d := reach_delta h.1 (hw o (by simp))
+      obtain ⟨i1, i2⟩ := ih (fun x hx => hw x (by simp [hx])) h.2
+      exact ⟨⟨d.dir_eq, i1⟩, by simp [d.id_eq, i2]⟩
+
+theorem nodup_of_ids {os : List Order} (h : (os.map (·.id)).Nodup) : os.Nodup :=
+  List.Pairwise.of_map (·.id) (fun a b hab e => hab (by rw [e])) h
+
+theorem tickIds_of_reach {d : Dir} {t t' : Tick} (hok : TickOk d t) (hr : TickReach t t')
+    (hn : (t.orders.map (·.id)).Nodup) : (t'.orders.map (·.id)).Nodup := by
+  rw [(reach_static (fun o ho => (hok o ho).1) hr.2).2]; exact hn
+
+theorem ticksFilled_cons (t t' : Tick) (ts ts' : List Tick) :
+    ticksFilled (t :: ts) (t' :: ts') = filledOf t.orders t'.orders + ticksFilled ts ts' := by
+  simp [ticksFilled, sumInt]
+
+theorem ticksQuote_cons (t t' : Tick) (ts ts' : List Tick) :
+    ticksQuote (t :: ts) (t' :: ts') = quoteOf t.orders t'.orders + ticksQuote ts ts' := by
+  simp [ticksQuote, sumInt]
+
+/-- one tick that was distributed to (`t → t₁`) and then evolved further inside the rest of the loop (`t₁ :: ts → r`) -/
+theorem ticks_head_trans {d : Dir} (t : Tick) (os₁ : List Order) (ts r : List Tick)
+    (hok : TickOk d t) (h1 : All2 Reach t.orders os₁)
+    (h2 : All2 TickReach ({ t with orders := os₁ } :: ts) r) :
+    ticksFilled (t :: ts) r = filledOf t.orders os₁ + ticksFilled ({ t with orders := os₁ } :: ts) r ∧
+    ticksQuote (t :: ts) r = quoteOf t.orders os₁ + ticksQuote ({ t with orders := os₁ } :: ts) r := by
+  cases r with
+  | nil => exact h2.elim
+  | cons t2 r' =>
+    have hst := reach_static (fun o ho => (hok o ho).1) h1
+    rw [ticksFilled_cons, ticksFilled_cons, ticksQuote_cons, ticksQuote_cons]
+    have e1 := filledOf_trans h1 h2.1.2
+    have e2 := quoteOf_trans hst.1 h2.1.2
+    simp only at e1 e2 ⊢
+    constructor <;> omega
+
+/-- **the two-sided loop of `Match`: accounting.** Its quote difference is exactly buyers' payments minus sellers'
+receipts; buyers receive exactly what sellers pay when no sell-side distribution lost a remainder (`r.lossless`) -/
+theorem matchLoop_account (fuel : Nat) (incr : Bool) (bs ss : List Tick)
+    (hb : ∀ t ∈ bs, TickOk .buy t) (hs : ∀ t ∈ ss, TickOk .sell t)
+    (hbn : ∀ t ∈ bs, (t.orders.map (·.id)).Nodup) (hsn : ∀ t ∈ ss, (t.orders.map (·.id)).Nodup)
+    (r : LoopRes) (h : matchLoop fuel incr bs ss = some r) :
+    r.q = ticksQuote bs r.buys + ticksQuote ss r.sells ∧
+    (r.lossless = true → ticksFilled bs r.buys = ticksFilled ss r.sells) := by
+  have base : ∀ (bs ss : List Tick), (⟨bs, ss, 0, none, true⟩ : LoopRes).q = ticksQuote bs bs + ticksQuote ss ss ∧
+      (true = true → ticksFilled bs bs = ticksFilled ss ss) := by
+    intro bs ss
+    simp [ticksQuote_self, ticksFilled_self]
+  induction fuel generalizing bs ss r with
+  | zero => unfold matchLoop at h; cases h; exact base bs ss
+  | succ fuel ih =>
+    cases bs with
+    | nil => unfold matchLoop at h; cases h; exact base _ _
+    | cons bt bts =>
+      cases ss with
+      | nil => unfold matchLoop at h; cases h; exact base _ _
+      | cons st sts =>
+        have hbt := hb bt (by simp)
+        have hst := hs st (by simp)
+        have hbts : ∀ t ∈ bts, TickOk .buy t := fun t ht => hb t (by simp [ht])
+        have hsts : ∀ t ∈ sts, TickOk .sell t := fun t ht => hs t (by simp [ht])
+        have hbnt := hbn bt (by simp)
+        have hsnt := hsn st (by simp)
+        have hbnts : ∀ t ∈ bts, (t.orders.map (·.id)).Nodup := fun t ht => hbn t (by simp [ht])
+        have hsnts : ∀ t ∈ sts, (t.orders.map (·.id)).Nodup := fun t ht => hsn t (by simp [ht])
+        unfold matchLoop at h
+        simp only at h
+        generalize hpd : (if incr = true then st.price else bt.price) = p at *
+        split at h
+        · cases h; exact base _ _
+        · rename_i hcross
+          split at h
+          · -- the buy tick has nothing matchable: skip it
+            cases hr : matchLoop fuel incr bts (st :: sts) with
+            | none => rw [hr] at h; cases h
+            | some r' =>
+              rw [hr] at h
+              cases h
+              obtain ⟨i1, i2⟩ := ih bts (st :: sts) hbts hs hbnts hsn r' hr
+              simp only [ticksQuote_cons, ticksFilled_cons, quoteOf_self, filledOf_self]
+              exact ⟨by omega, fun hl => by have := i2 hl; omega⟩
+          · rename_i hbo
+            split at h
+            · cases hr : matchLoop fuel incr (bt :: bts) sts with
+              | none => rw [hr] at h; cases h
+              | some r' =>
+                rw [hr] at h
+                cases h
+                obtain ⟨i1, i2⟩ := ih (bt :: bts) sts hb hsts hbn hsnts r' hr
+                simp only [ticksQuote_cons, ticksFilled_cons, quoteOf_self, filledOf_self]
+                exact ⟨by omega, fun hl => by have := i2 hl; omega⟩
+            · rename_i hso
+              have hbo' : 0 < totalMatchable bt.orders p := by omega
+              have hso' : 0 < totalMatchable st.orders p := by omega
+              have hbp := tick_price_pos hbt p hbo'
+              have hsp := tick_price_pos hst p hso'
+              have hp : 0 < p := by rw [← hpd]; split <;> assumption
+              have hpb : p ≤ bt.price := by rw [← hpd]; split <;> omega
+              have hps : st.price ≤ p := by rw [← hpd]; split <;> omega
+              have hwb := within_of_tickOk hbt p (fun _ => hpb) (fun h => by cases h)
+              have hws := within_of_tickOk hst p (fun h => by cases h) (fun _ => hps)
+              generalize hXb : (if totalMatchable bt.orders p ≤ totalMatchable st.orders p then totalMatchable bt.orders p
+                 else totalMatchable st.orders p) = Xb at *
+              generalize hXs : (if totalMatchable st.orders p ≤ totalMatchable bt.orders p then totalMatchable st.orders p
+                 else totalMatchable bt.orders p) = Xs at *
+              have hXb0 : 0 ≤ Xb := by rw [← hXb]; split <;> omega
+              have hXs0 : 0 ≤ Xs := by rw [← hXs]; split <;> omega
+              have hXeq : Xb = Xs := by rw [← hXb, ← hXs]; split <;> split <;> omega
+              have hXble : Xb ≤ totalMatchable bt.orders p := by rw [← hXb]; split <;> omega
+              obtain ⟨bos, q1, hd1, rb⟩ := distributeToTick_ok bt.orders Xb p hp hXb0 hwb
+              obtain ⟨sos, q2, hd2, rs⟩ := distributeToTick_ok st.orders Xs p hp hXs0 hws
+              rw [hd1] at h; simp only at h; rw [hd2] at h; simp only at h
+              obtain ⟨a1, a2⟩ := distributeToTick_account bt.orders Xb p hp hXb0 (fun o ho => (hwb o ho).1)
+                (nodup_of_ids hbnt) bos q1 hd1
+              obtain ⟨c1, c2⟩ := distributeToTick_account st.orders Xs p hp hXs0 (fun o ho => (hws o ho).1)
+                (nodup_of_ids hsnt) sos q2 hd2
+              have hbl : groupsLossless (groupOrders bt.orders) Xb p = true := by
+                apply groupsLossless_buys _ Xb p hp hXb0
+                · intro g hg o ho
+                  have := hbt o (mem_groupOrders bt.orders g hg o ho)
+                  exact ⟨this.1, this.2.1⟩
+                · rw [sum_groupOrders]; exact hXble
+              have hbf := a2 hbl
+              have rbt : TickReach bt { bt with orders := bos } := ⟨rfl, rb⟩
+              have rst : TickReach st { st with orders := sos } := ⟨rfl, rs⟩
+              have hbt' := tickOk_of_reach hbt rbt
+              have hst' := tickOk_of_reach hst rst
+              have hbn' := tickIds_of_reach hbt rbt hbnt
+              have hsn' := tickIds_of_reach hst rst hsnt
+              by_cases k1 : totalMatchable bt.orders p ≤ totalMatchable st.orders p
+              · by_cases k2 : totalMatchable st.orders p ≤ totalMatchable bt.orders p
+                · simp only [k1, k2, if_true] at h
+                  cases hr : matchLoop fuel incr bts sts with
+                  | none => rw [hr] at h; cases h
+                  | some r' =>
+                    rw [hr] at h
+                    cases h
+                    obtain ⟨i1, i2⟩ := ih bts sts hbts hsts hbnts hsnts r' hr
+                    simp only [ticksQuote_cons, ticksFilled_cons, Bool.and_eq_true]
+                    refine ⟨by omega, ?_⟩
+                    intro hl
+                    have := i2 hl.2
+                    have := c2 hl.1
+                    omega
+                · simp only [k1, k2, if_true, if_false] at h
+                  cases hr : matchLoop fuel incr bts ({ st with orders := sos } :: sts) with
+                  | none => rw [hr] at h; cases h
+                  | some r' =>
+                    rw [hr] at h
+                    cases h
+                    have hs2 : ∀ t ∈ ({ st with orders := sos } : Tick) :: sts, TickOk .sell t := by
+                      intro t ht; rcases List.mem_cons.mp ht with rfl | ht; exact hst'; exact hsts t ht
+                    have hsn2 : ∀ t ∈ ({ st with orders := sos } : Tick) :: sts, (t.orders.map (·.id)).Nodup := by
+                      intro t ht; rcases List.mem_cons.mp ht with rfl | ht; exact hsn'; exact hsnts t ht
+                    obtain ⟨i1, i2⟩ := ih bts _ hbts hs2 hbnts hsn2 r' hr
+                    obtain ⟨r'', hr'', _, rr2⟩ := matchLoop_ok fuel incr bts _ hbts hs2
+                    rw [hr] at hr''; cases hr''
+                    obtain ⟨t1, t2⟩ := ticks_head_trans st sos sts r'.sells hst rs rr2
+                    simp only [ticksQuote_cons, ticksFilled_cons, Bool.and_eq_true]
+                    refine ⟨by omega, ?_⟩
+                    intro hl
+                    have := i2 hl.2
+                    have := c2 hl.1
+                    omega
+              · have k2 : totalMatchable st.orders p ≤ totalMatchable bt.orders p := by omega
+                simp only [k1, k2, if_true, if_false] at h
+                cases hr : matchLoop fuel incr ({ bt with orders := bos } :: bts) sts with
+                | none => rw [hr] at h; cases h
+                | some r' =>
+                  rw [hr] at h
+                  cases h
+                  have hb2 : ∀ t ∈ ({ bt with orders := bos } : Tick) :: bts, TickOk .buy t := by
+                    intro t ht; rcases List.mem_cons.mp ht with rfl | ht; exact hbt'; exact hbts t ht
+                  have hbn2 : ∀ t ∈ ({ bt with orders := bos } : Tick) :: bts, (t.orders.map (·.id)).Nodup := by
+                    intro t ht; rcases List.mem_cons.mp ht with rfl | ht; exact hbn'; exact hbnts t ht
+                  obtain ⟨i1, i2⟩ := ih _ sts hb2 hsts hbn2 hsnts r' hr
+                  obtain ⟨r'', hr'', rr1, _⟩ := matchLoop_ok fuel incr _ sts hb2 hsts
+                  rw [hr] at hr''; cases hr''
+                  obtain ⟨t1, t2⟩ := ticks_head_trans bt bos bts r'.buys hbt rb rr1
+                  simp only [ticksQuote_cons, ticksFilled_cons, Bool.and_eq_true]
+                  refine ⟨by omega, ?_⟩
+                  intro hl
+                  have := i2 hl.2
+                  have := c2 hl.1
+                  omega
+
+
+
+theorem ticks_trans {d : Dir} {a b c : List Tick} (hok : ∀ t ∈ a, TickOk d t)
+    (h1 : All2 TickReach a b) (h2 : All2 TickReach b c) :
+    ticksFilled a c = ticksFilled a b + ticksFilled b c ∧ ticksQuote a c = ticksQuote a b + ticksQuote b c := by
+  induction a generalizing b c with
+  | nil =>
+    cases b with
+    | nil => cases c with
+      | nil => simp [ticksFilled, ticksQuote, sumInt]
+      | cons _ _ => exact h2.elim
+    | cons _ _ => exact h1.elim
+  | cons x xs ih =>
+    cases b with
+    | nil => exact h1.elim
+    | cons y ys =>
+      cases c with
+      | nil => exact h2.elim
+      | cons z zs =>
+        obtain ⟨i1, i2⟩ := ih (fun t ht => hok t (by simp [ht])) h1.2 h2.2
+        have hst := reach_static (fun o ho => (hok x (by simp) o ho).1) h1.1.2
+        have e1 := filledOf_trans h1.1.2 h2.1.2
+        have e2 := quoteOf_trans hst.1 h2.1.2
+        simp only [ticksFilled_cons, ticksQuote_cons]
+        constructor <;> omega
+
+/-- **`OrderBook.Match`: accounting.** The returned `quoteCoinDiff` is exactly the quote coin paid by the buyers minus the
+quote coin received by the sellers; buyers receive exactly as much base coin as sellers pay when no sell-side distribution
+lost a remainder (`matchLossless`, decidable ghost) -/
+theorem matchBook_account (b : Book) (lp : Int) (hlp : 0 < lp) (hb : BookOk b)
+    (hn : (∀ t ∈ b.buys, (t.orders.map (·.id)).Nodup) ∧ (∀ t ∈ b.sells, (t.orders.map (·.id)).Nodup))
+    (b' : Book) (mp q : Int) (h : matchBook b lp = .ok b' mp q) :
+    q = ticksQuote b.buys b'.buys + ticksQuote b.sells b'.sells ∧
+    (matchLossless b lp = true → ticksFilled b.buys b'.buys = ticksFilled b.sells b'.sells) := by
+  have hnd : (∀ t ∈ b.buys, t.orders.Nodup) ∧ (∀ t ∈ b.sells, t.orders.Nodup) :=
+    ⟨fun t ht => nodup_of_ids (hn.1 t ht), fun t ht => nodup_of_ids (hn.2 t ht)⟩
+  unfold matchBook at h
+  unfold matchLossless
+  split at h
+  · cases h
+  · rcases matchAtSinglePrice_ok b lp hlp hb with hs | ⟨b1, q0, hs, r0⟩
+    · -- nothing matched at the last price
+      have hfn : findMatchableAmount b lp = none := by
+        unfold matchAtSinglePrice at hs
+        cases hf : findMatchableAmount b lp with
+        | none => rfl
+        | some x =>
+          rw [hf] at hs
+          simp only at hs
+          cases h1 : distTicks b.buys x lp with
+          | none => rw [h1] at hs; cases hs
+          | some r1 =>
+            rw [h1] at hs
+            simp only at hs
+            cases h2 : distTicks b.sells x lp with
+            | none => rw [h2] at hs; cases hs
+            | some r2 => rw [h2] at hs; cases hs
+      rw [hs] at h ⊢
+      rw [hfn]
+      simp only at h ⊢
+      split at h
+      · cases h
+      · rename_i hdir
+        rw [if_neg hdir]
+        cases hr : matchLoop (b.buys.length + b.sells.length) (priceDirection b lp == PDir.increasing) b.buys b.sells with
+        | none => rw [hr] at h; cases h
+        | some r =>
+          rw [hr] at h
+          simp only at h ⊢
+          obtain ⟨a1, a2⟩ := matchLoop_account _ _ b.buys b.sells hb.1 hb.2 hn.1 hn.2 r hr
+          cases hl : r.last with
+          | none => rw [hl] at h; simp at h
+          | some m =>
+            rw [hl] at h
+            simp only [MRes.ok.injEq] at h
+            obtain ⟨rfl, rfl, rfl⟩ := h
+            exact ⟨by simp only; omega, fun hx => a2 (by simpa using hx)⟩
+    · obtain ⟨x, hx1, hx2, hx3, hx4, hx5⟩ := matchAtSinglePrice_account b lp hlp hb hnd b1 q0 hs
+      rw [hs] at h ⊢
+      rw [hx1]
+      simp only at h ⊢
+      split at h
+      · rename_i hdir
+        rw [if_pos hdir]
+        simp only [MRes.ok.injEq] at h
+        obtain ⟨rfl, rfl, rfl⟩ := h
+        exact ⟨hx3, fun hl => by rw [hx4, hx5 hl]⟩
+      · rename_i hdir
+        rw [if_neg hdir]
+        have hb1 := bookOk_of_reach hb r0
+        have hn1 : (∀ t ∈ b1.buys, (t.orders.map (·.id)).Nodup) ∧ (∀ t ∈ b1.sells, (t.orders.map (·.id)).Nodup) := by
+          constructor
+          · intro t' ht'
+            obtain ⟨t, ht, r⟩ := all2_mem_right r0.1 ht'
+            exact tickIds_of_reach (hb.1 t ht) r (hn.1 t ht)
+          · intro t' ht'
+            obtain ⟨t, ht, r⟩ := all2_mem_right r0.2 ht'
+            exact tickIds_of_reach (hb.2 t ht) r (hn.2 t ht)
+        cases hr : matchLoop (b1.buys.length + b1.sells.length) (priceDirection b lp == PDir.increasing) b1.buys b1.sells with
+        | none => rw [hr] at h; cases h
+        | some r =>
+          rw [hr] at h
+          simp only at h ⊢
+          obtain ⟨a1, a2⟩ := matchLoop_account _ _ b1.buys b1.sells hb1.1 hb1.2 hn1.1 hn1.2 r hr
+          obtain ⟨r', hr', rr1, rr2⟩ := matchLoop_ok (b1.buys.length + b1.sells.length)
+            (priceDirection b lp == PDir.increasing) b1.buys b1.sells hb1.1 hb1.2
+          rw [hr] at hr'; cases hr'
+          obtain ⟨tb1, tb2⟩ := ticks_trans hb.1 r0.1 rr1
+          obtain ⟨ts1, ts2⟩ := ticks_trans hb.2 r0.2 rr2
+          have hfin : (match r.last with
+              | some mp => MRes.ok ⟨r.buys, r.sells⟩ mp (q0 + r.q)
+              | none => if true = true then MRes.ok ⟨r.buys, r.sells⟩ lp (q0 + r.q) else MRes.noMatch) = MRes.ok b' mp q → 
+              b' = ⟨r.buys, r.sells⟩ ∧ q = q0 + r.q := by
+            intro hh
+            cases hl : r.last with
+            | none => rw [hl] at hh; simp at hh; exact ⟨hh.1.symm, hh.2.2.symm⟩
+            | some m => rw [hl] at hh; simp at hh; exact ⟨hh.1.symm, hh.2.2.symm⟩
+          obtain ⟨rfl, rfl⟩ := hfin h
+          refine ⟨by simp only; omega, ?_⟩
+          intro hl
+          simp only [Bool.and_eq_true] at hl
+          have := a2 hl.2
+          have := hx5 hl.1
+          simp only
+          omega
+
+
+
+theorem newBook_ids_aux (os : List Order) (b : Book) (hb : (b.orders.map (·.id)).Nodup) (hos : (os.map (·.id)).Nodup)
+    (hdis : ∀ o ∈ os, o.id ∉ b.orders.map (·.id)) : ((os.foldl addOrder b).orders.map (·.id)).Nodup := by
+  induction os generalizing b with
+  | nil => exact hb
+  | cons x xs ih =>
+    simp only [List.map_cons, List.nodup_cons] at hos
+    simp only [List.foldl_cons]
+    have hxb : x.id ∉ b.orders.map (·.id) := hdis x (by simp)
+    have hb' : ((addOrder b x).orders.map (·.id)).Nodup := by
+      unfold addOrder
+      split
+      · cases hd : x.dir with
+        | buy =>
+          simp only [Book.orders]
+          have hp := ((insertTick_perm false x b.buys).append_right ((b.sells.map (·.orders)).flatten)).map (·.id)
+          rw [hp.nodup_iff]
+          simp only [List.cons_append, List.map_cons, List.nodup_cons]
+          exact ⟨hxb, hb⟩
+        | sell =>
+          simp only [Book.orders]
+          have hp := ((insertTick_perm true x b.sells).append_left ((b.buys.map (·.orders)).flatten)).map (·.id)
+          rw [hp.nodup_iff]
+          have hm : (((b.buys.map (·.orders)).flatten ++ x :: (b.sells.map (·.orders)).flatten).map (·.id)).Perm
+              ((x :: ((b.buys.map (·.orders)).flatten ++ (b.sells.map (·.orders)).flatten)).map (·.id)) :=
+            (List.perm_middle).map _
+          rw [hm.nodup_iff, List.map_cons, List.nodup_cons]
+          exact ⟨hxb, hb⟩
+      · exact hb
+    apply ih (addOrder b x) hb' hos.2
+    intro o ho hmem
+    rw [List.mem_map] at hmem
+    obtain ⟨o2, ho2, hid⟩ := hmem
+    rcases mem_addOrder b x o2 ho2 with e | e
+    · subst e
+      exact hos.1 (by rw [hid]; exact List.mem_map.mpr ⟨o, ho, rfl⟩)
+    · exact hdis o (by simp [ho]) (List.mem_map.mpr ⟨o2, e, hid⟩)
+
+/-- distinct order ids in, ticks with distinct ids out -/
+theorem newBook_ids (os : List Order) (hos : (os.map (·.id)).Nodup) :
+    (∀ t ∈ (newBook os).buys, (t.orders.map (·.id)).Nodup) ∧ (∀ t ∈ (newBook os).sells, (t.orders.map (·.id)).Nodup) := by
+  have h : ((newBook os).orders.map (·.id)).Nodup :=
+    newBook_ids_aux os ⟨[], []⟩ (by simp [Book.orders]) hos (by simp [Book.orders])
+  unfold Book.orders at h
+  rw [List.map_append, List.nodup_append] at h
+  constructor
+  · intro t ht
+    exact List.Nodup.sublist ((List.sublist_flatten_of_mem (List.mem_map.mpr ⟨t, ht, rfl⟩)).map _) h.1
+  · intro t ht
+    exact List.Nodup.sublist ((List.sublist_flatten_of_mem (List.mem_map.mpr ⟨t, ht, rfl⟩)).map _) h.2.1
+
+
 end Comdex.Amm
